@@ -646,6 +646,12 @@ def _s_param(p, prog):
 def s_build(prog, cmds, cache, seg):
     with prog.context as q:
         for idx, (name, params, modes, dagger, extra) in enumerate(cmds):
+            if name == "Del":
+                ops.Del | tuple(prog.reg_refs[m] for m in modes)
+                continue
+            if name == "New":
+                ops.New(params[0])
+                continue
             if "same_as" in extra and extra["same_as"] in cache:
                 op = cache[extra["same_as"]]
             else:
@@ -657,7 +663,8 @@ def s_build(prog, cmds, cache, seg):
                     op = cls(*ps)
                 if "oid" in extra:
                     cache[extra["oid"]] = op
-            (op.H if dagger else op) | tuple(q[m] for m in modes)
+            # modes are RegRef indices (not positions in the tuple of live modes)
+            (op.H if dagger else op) | tuple(prog.reg_refs[m] for m in modes)
     return prog
 
 
@@ -831,6 +838,43 @@ def meas_cmd(rng, mode):
     return ["MeasureHomodyne", [rng.choice([0.0, 0.0, 1.5707963267948966, 0.4])], [mode], False, {"select": rng.choice([0.25, -0.5, 0.8, 0.0])}]
 
 
+def add_reg_ops(rng, segs, n, p_del=0.12, p_new=0.1, max_total=4, skip_first=0):
+    """Insert Del / New commands at random places of a list of segments (in place) and keep the
+    rest consistent: commands that touch a deleted mode (or feed forward from one) are dropped,
+    some single-mode commands are moved onto the new modes.  Returns the number of inserted ops."""
+    live, total, fresh, count = set(range(n)), n, [], 0
+    for si, seg in enumerate(segs):
+        out = []
+        for cmd in list(seg) + [None]:
+            r = rng.random()
+            if si >= skip_first:
+                if r < p_del and len(live) > 1:
+                    m = rng.choice(sorted(live))
+                    out.append(["Del", [], [m], False, {}])
+                    live.discard(m)
+                    if m in fresh:
+                        fresh.remove(m)
+                    count += 1
+                elif r < p_del + p_new and total < max_total:
+                    out.append(["New", [1], [], False, {}])
+                    live.add(total)
+                    fresh.append(total)
+                    total += 1
+                    count += 1
+            if cmd is None:
+                break
+            cmd = copy.deepcopy(cmd)
+            if fresh and len(cmd[2]) == 1 and not cmd[0].startswith("Measure") and rng.random() < 0.4:
+                cmd[2] = [rng.choice(fresh)]
+            if any(m not in live for m in cmd[2]):
+                continue
+            if any(isinstance(x, dict) and "m" in x and x["m"] not in live for x in cmd[1]):
+                continue
+            out.append(cmd)
+        seg[:] = out
+    return count
+
+
 def gen_compose(rng, backend):
     n = rng.randint(1, 3 if backend != "fock" else 2)
     seg1 = s_random_cmds(rng, n, rng.randint(0, 4), backend, 0)
@@ -870,7 +914,16 @@ def gen_compose(rng, backend):
             if "same_as" in c[4]:
                 c[4]["same_as"] = c[4]["same_as"].replace("s1_", "s9_")
         feat.add("three-segments")
-    return {"n": n, "backend": backend, "segs": segs, "child": rng.random() < 0.6, "feat": sorted(feat)}
+    child = rng.random() < 0.6
+    if backend != "bosonic" and rng.random() < 0.45:
+        # follow-up segments that delete / create modes (only meaningful for child programs:
+        # an independent Program(n) cannot follow a program that changed the register)
+        k = add_reg_ops(rng, segs, n, max_total=4 if backend == "gaussian" else 3,
+                        skip_first=rng.choice([0, 1, 1]))
+        if k:
+            feat.add("reg-ops")
+            child = True
+    return {"n": n, "backend": backend, "segs": segs, "child": child, "feat": sorted(feat)}
 
 
 def compose_patterns(spec):
@@ -878,16 +931,25 @@ def compose_patterns(spec):
     n, backend = spec["n"], spec["backend"]
     out = {}
 
+    changed = []
+
     def build_all():
         cache = {}
-        progs = []
+        progs, fps = [], []
         for i, seg in enumerate(spec["segs"]):
             base = sf.Program(n) if (i == 0 or not spec["child"]) else sf.Program(progs[-1])
             progs.append(s_build(base, seg, cache, i))
-        return progs
+            fps.append(fingerprint(progs[-1]))
+            # building segment i must not change what the user sees of segments 0..i-1
+            for j in range(i):
+                d = fp_diff(fps[j], fingerprint(progs[j]))
+                if d:
+                    changed.append(("building", j, i, d))
+        return progs, fps
 
-    progs = build_all()
+    progs, fps = build_all()
     out["retarget"] = not all(owner_ok(p) for p in progs)
+    out["changed"] = changed
     eng = new_engine(backend)
     begins = []
     orig_begin = eng.backend.begin_circuit
@@ -898,7 +960,11 @@ def compose_patterns(spec):
     eng.backend.begin_circuit = counting_begin
     out["A"] = attempt(lambda: eng.run(progs), backend)
     out["begins"] = len(begins)
-    progs2 = build_all()
+    for j, p_ in enumerate(progs):
+        d = fp_diff(fps[j], fingerprint(p_))
+        if d:
+            changed.append(("running", j, len(progs) - 1, d))
+    progs2, _ = build_all()
     eng2 = new_engine(backend)
 
     def seq():
@@ -919,6 +985,11 @@ def compose_patterns(spec):
 def compose_verdict(spec, out):
     """None if the three patterns agree, else (signature, text)."""
     tol = spec_tol(spec)
+    if out.get("changed"):
+        how, j, i, d = out["changed"][0]
+        return ("segments:earlier-segment-changed-by-%s-a-later-one:%s" % (how, d),
+                "%s segment %d changed the user-visible state of segment %d (%s): register / num_subsystems / RegRef activity / circuit / op parameters must stay as they were"
+                % (how, i, j, d))
     if out["retarget"]:
         return ("params:measured-parameter-retargeted",
                 "building the second program re-targeted the first program's measured parameters (q[k].par of two programs is one sympy object)")
@@ -1004,6 +1075,13 @@ def gen_reset(rng, backend):
         for cm in hist + [q] if rng.random() < 0.7 else hist:
             if rng.random() < 0.8:
                 cm.insert(rng.randint(0, next((i for i, c in enumerate(cm) if c[0].startswith("Measure")), len(cm))), ms_cmd(rng, n))
+    if backend != "bosonic" and rng.random() < 0.4:
+        # the history changes the register (the reset must restore the original number of modes)
+        add_reg_ops(rng, hist, n, p_del=0.2, p_new=0.15, max_total=4 if backend == "gaussian" else 3)
+        if rng.random() < 0.5:
+            qq = [q]
+            add_reg_ops(rng, qq, n, p_del=0.2, p_new=0.15, max_total=4 if backend == "gaussian" else 3)
+            q = qq[0]
     return {"n": n, "backend": backend, "hist": hist, "q": q, "reset_opts": opts, "same_call": rng.random() < 0.3,
             "np_seed": rng.randrange(10 ** 6)}
 
@@ -1089,6 +1167,8 @@ def fingerprint(prog):
     return {
         "circuit_id": 0, "circ": circ,
         "regs": sorted((k, r.ind, r.active) for k, r in prog.reg_refs.items()),
+        "register": [r.ind for r in prog.register], "num_subsystems": prog.num_subsystems,
+        "unused": sorted(prog.unused_indices), "init_unused": sorted(prog.init_unused_indices),
         "init_regs": sorted((k, r.ind, r.active) for k, r in prog.init_reg_refs.items()),
         "free": sorted((k, repr(v.default)) for k, v in prog.free_params.items()),
         "run_options": repr(sorted(prog.run_options.items())), "backend_options": repr(sorted(prog.backend_options.items())),
@@ -1146,6 +1226,11 @@ def gen_untouched(rng, backend):
             grp, fam = merge_group(rng, n, backend, "mg%d" % g)
             cm[pos:pos] = grp
             feat.add("merge:" + fam)
+    if backend != "bosonic" and fail != "unmeasured" and rng.random() < 0.3:
+        cc = [cm]
+        if add_reg_ops(rng, cc, n, p_del=0.15, p_new=0.12, max_total=4 if backend == "gaussian" else 3):
+            feat.add("reg-ops")
+        cm = cc[0]
     co = rng.choice([None, {"optimize": False}, {"warn_connected": False}, {"optimize": True}, {"optimize": True}])
     if co and co.get("optimize") and symbolic:
         co = {"optimize": False}     # optimising circuits with measured parameters is C03's subject (known defect there)
